@@ -165,7 +165,7 @@ func init() {
 		Level: "exploration",
 		Rule: "case = one run: G in {2,4,8,16} goroutines, each a seeded mix of Parse(path, config), calls of SHARED parsed functions on SHARED read-only documents and " +
 			"Retrieve (runs are mixed, evaluation-only — no lock taken, hence no happens-before edge between goroutines at all — or parse-only), over a corpus of ~400 paths (every step kind x function suffix, a slice of every comparison/logical shape, literal-only comparisons, random ASTs) x 3 " +
-			"configurations x 34 documents; scheduler yields injected at the Parse/evaluation hook points; executed once under the Go race detector and once without; " +
+			"configurations x 37 documents (34 small ones; a 1500-element array, a 1100-member object and 5000 numbers evaluated by 20 of the paths); in a third of the runs half of the operations go to a hot set of five (path, configuration, document) triples and 2% to one on a big document; scheduler yields injected at the Parse/evaluation hook points; executed once under the Go race detector and once without; " +
 			"judged: zero race reports with a library frame, and every operation returns exactly its sequential outcome (computed before any goroutine starts); " +
 			"non-trivial = every operation executed while other goroutines were inside the library; distinct = distinct (operation kind, path, configuration, document) combinations; the evidence reports operations, the maximum number of " +
 			"evaluations in flight and how many evaluations overlapped a Parse",
